@@ -123,6 +123,11 @@ func (this *code39Reader) DecodeRow(rowNumber int, row *gozxing.BitArray, hints 
 			nextStart, end, whiteSpaceAfterEnd, lastPatternSize)
 	}
 
+	if len(result) == 0 {
+		// false positive: nothing between start and stop (no check digit to verify either)
+		return nil, gozxing.NewNotFoundException("empty result")
+	}
+
 	if this.usingCheckDigit {
 		max := len(result) - 1
 		total := 0
